@@ -144,17 +144,13 @@ def run(argv, stdin=b'', cwd=None, env=None, timeout=20, preexec=None):
     return Result(p.returncode, out, err, to, time.time() - t0)
 
 
-VI_QUIT = b'\x1b\x1b:\x05q!\n\x1b\x1b:\x05q!\n'
-EX_QUIT = b'.\nq!\n.\nq!\n'
-
-_case_counter = [0]
-
+VI_QUIT = b'\x1b\x1b:\x05q!\n' * 60      # each ESC may only close one pending text block / prompt
+EX_QUIT = b'.\nq!\n' * 150            # :g/re/a reads one text block per matching line
 
 def case_dir(tag='c'):
-    _case_counter[0] += 1
-    d = os.path.join(tmp_root(), 'cases', '%s%d' % (tag, _case_counter[0]))
-    os.makedirs(d)
-    return d
+    base = os.path.join(tmp_root(), 'cases')
+    os.makedirs(base, exist_ok=True)
+    return tempfile.mkdtemp(prefix=tag, dir=base)
 
 
 def write_files(d, files):
